@@ -50,6 +50,8 @@ class Inc:
 
     def line(self, rootdir):
         st = self.style
+        if st["quote"] == "none" and not (self.target.rel.split("/")[-1][0].isalnum() or self.target.rel.split("/")[-1][0] == "_"):
+            st = dict(st, quote="dq")  # (only plain names can be written without quotes)
         path = os.path.join(rootdir, self.target.rel) if st["abs"] else self.target.rel
         q = {"dq": '"', "sq": "'", "none": ""}[st["quote"]]
         kw = {"upper": "INCLUDE", "lower": "include", "title": "Include"}[st["case"]]
@@ -79,7 +81,9 @@ class TreeGen:
         self.n += 1
         r = self.r
         sub = r.choice(["", "", "inc", "inc/deep", "parts", "a.b"])
-        name = r.choice(["part", "layer", "inc_file", "x-y", "UPPER", "f"]) + str(self.n) + r.choice([".map", ".inc", ".txt", ""])
+        name = r.choice(["part", "layer", "inc_file", "x-y", "UPPER", "f", "part", "layer",
+                         # legal file names that start with something else than a letter or digit (always written quoted)
+                         "@shared", "(old)", "+extras", "[major]", "~tmp", "=x", "é", "_u", "-dash", "!bang", "&amp", "%pct"]) + str(self.n) + r.choice([".map", ".inc", ".txt", ""])
         f = File((sub + "/" if sub else "") + name, depth)
         f.eol = r.choice(["\n", "\n", "\r\n"])
         f.trailing_newline = r.random() < 0.7
